@@ -1,6 +1,9 @@
+import os
 import pathlib
 import re
 import shutil
+import stat
+import sys
 from typing import List
 
 from conductor.context import Context
@@ -83,7 +86,32 @@ def main(args):
             for exp_path in to_delete:
                 if args.verbose:
                     print("Deleting", str(_relative_to_if_possible(exp_path, cwd)))
-                shutil.rmtree(exp_path, ignore_errors=True)
+                _remove_output_dir(exp_path)
+
+
+def _remove_output_dir(exp_path: pathlib.Path) -> None:
+    # N.B. Failed tasks can leave read-only directories behind (e.g., package
+    # or build caches). The user owns them, but removing their contents fails
+    # until they are made writable. `shutil.rmtree()` never follows symlinks,
+    # so the paths we are given here always lie inside `exp_path`.
+    def make_writable_and_retry(func, path, _exc):
+        try:
+            if os.path.islink(path) or pathlib.Path(path) == exp_path:
+                return
+            os.chmod(os.path.dirname(path), stat.S_IRWXU)
+            if func in (os.unlink, os.rmdir):
+                func(path)
+            else:
+                # We could not list or open a directory.
+                os.chmod(path, stat.S_IRWXU)
+                shutil.rmtree(path, ignore_errors=True)
+        except OSError:
+            pass
+
+    if sys.version_info >= (3, 12):
+        shutil.rmtree(exp_path, onexc=make_writable_and_retry)
+    else:
+        shutil.rmtree(exp_path, onerror=make_writable_and_retry)
 
 
 def _relative_to_if_possible(path: pathlib.Path, base: pathlib.Path) -> pathlib.Path:
